@@ -103,7 +103,9 @@ Print Assumptions harvest_index_src_ok.
    (potential canopy / actual canopy / senescence due to water stress / raise + micro-advective adjustment), once for
    each calendar type.  The proof follows the blocks: each block's scrutinee is shown equal to [Some] of the hand
    model's block function ([cc_potential], [cc_actual], [cc_senescence]; tuple components in the order the translator
-   joins them), then replaced.  The hand model takes the four root-zone results as arguments, so there is no
+   joins them), then replaced.  Every block is a separate sentence under [Timeout]: on this machine they take about
+   1 s / 5 s / 22 s / 2 s; when the generated text does not match (a mutated source) the case analysis of a block can
+   grow many times larger before any leaf is compared, and the time limit turns that into a prompt failure.  The hand model takes the four root-zone results as arguments, so there is no
    hypothesis about root_zone_water; Crop.Zmin / Crop.Aer (only arguments of that call) are arbitrary.
    Hypotheses:
      [#1 * x = x]           inherited from water_stress (np.ones(nstress) * Crop_p_up)
@@ -158,33 +160,19 @@ Section CC.
          conversion test into unfolding the hand model for minutes, hence the time limit *)
       timeout 30 reflexivity.
 
-    Ltac cc_body k s tcc dt Dr taw et0 ksw :=
-      (* potential canopy *)
-      match goal with |- match ?p1 with Some _ => _ | None => _ end = _ =>
-        assert (H1 : p1 = Some (let '(a, b, c) := cc_potential k tcc dt (s_cc_ns s) (s_ccx_act_ns s) (s_ccx_w_ns s) in (a, b, c)))
-          by (unfold cc_potential, cc_outside; phase);
-        rewrite H1; clear H1 end;
-      destruct (cc_potential k tcc dt (s_cc_ns s) (s_ccx_act_ns s) (s_ccx_w_ns s)) as [[cc_ns ccx_act_ns] ccx_w_ns];
-      cbv beta iota;
-      (* actual canopy *)
-      match goal with |- match ?p2 with Some _ => _ | None => _ end = _ =>
-        assert (H2 : p2 = Some (let '(cc, c0a, ca, pr, de) := cc_actual k tcc dt (Ksw_Exp ksw) s in (cc, pr, ca, de, c0a)))
-          by (unfold cc_actual, cc_outside, cc_growing, death_check; phase);
-        rewrite H2; clear H2 end;
-      destruct (cc_actual k tcc dt (Ksw_Exp ksw) s) as [[[[cc cc0_adj] ccx_act] prot] dead];
-      cbv beta iota;
-      (* senescence due to water stress *)
-      match goal with |- match ?p3 with Some _ => _ | None => _ end = _ =>
-        assert (H3 : p3 = Some (let '(cc', c0a', ca', de', pm, ces, tes, cw) :=
-                                  cc_senescence k s tcc dt (Ksw_Sen ksw) Dr taw et0 cc cc0_adj ccx_act dead in
-                                (tes, pm, ces, ca', c0a', de', cc', cw)))
-          by (unfold cc_senescence, cc_stress_branch, cc_rewater_branch, cc_sen, death_check, ws_of; phase);
-        rewrite H3; clear H3 end;
-      destruct (cc_senescence k s tcc dt (Ksw_Sen ksw) Dr taw et0 cc cc0_adj ccx_act dead)
-        as [[[[[[[cc' cc0_adj'] ccx_act'] dead'] premat] ces] tes] ccx_w];
-      cbv beta iota;
-      (* potential not below actual, micro-advective adjustment *)
-      unfold cc_ns_raise, cc_adj_of; phase.
+    Ltac split_all :=
+      once (repeat (first [ progress cc_rw; unfold ksw_tuple, update_CCx_CDC; cbn [andb]; cbv beta iota zeta
+                          | q_split_if ])).
+
+    (* the canopy size after senescence, CCsen (the body of [cc_sen]), occurs about ten times on each side once the lets
+       are expanded and contains two tests of its own; it is the same term on both sides, so it is replaced by a variable
+       before the case analysis (if the source computes it differently the terms differ, something is left over and the
+       leaves fail) *)
+    Ltac abstract_ccsen :=
+      repeat match goal with
+             | |- context [if ?a <? 1#/1000 then #0 else (if ?c <? #0 then #0 else ?c)] =>
+               generalize (if a <? 1#/1000 then #0 else (if c <? #0 then #0 else c)); intro
+             end.
 
     Theorem canopy_cover_src_ok :
       forall (zmin aer ztop zroot : F) (k : CropC (F:=F)) (s : CanopyS (F:=F)) (dap dcds : Z) (gdd_cum dgdd gdd : F)
@@ -206,8 +194,64 @@ Section CC.
       rewrite (water_stress_src_ok Hone). unfold ksw_tuple. cbn [andb]. cbv beta iota zeta.
       match goal with |- context [Ksw_Exp ?w] => remember w as ksw eqn:Eksw; clear Eksw end.
       destruct (k_cal k =? 1)%Z; [| destruct (k_cal k =? 2)%Z; [| reflexivity]].
-      - cc_body k s (#(dap - dcds)) (#1 : F) Dr taw et0 ksw.
-      - cc_body k s (gdd_cum - dgdd) gdd Dr taw et0 ksw.
+      - (* potential canopy *)
+        Timeout 60 match goal with |- match ?p1 with Some _ => _ | None => _ end = _ =>
+          assert (H1 : p1 = Some (let '(a, b, c) := cc_potential k (#(dap - dcds)) (#1) (s_cc_ns s) (s_ccx_act_ns s) (s_ccx_w_ns s) in (a, b, c)))
+            by (unfold cc_potential, cc_outside; phase);
+          rewrite H1; clear H1 end.
+        destruct (cc_potential k (#(dap - dcds)) (#1) (s_cc_ns s) (s_ccx_act_ns s) (s_ccx_w_ns s)) as [[cc_ns ccx_act_ns] ccx_w_ns].
+        cbv beta iota.
+        (* actual canopy *)
+        Timeout 120 match goal with |- match ?p2 with Some _ => _ | None => _ end = _ =>
+          assert (H2 : p2 = Some (let '(cc, c0a, ca, pr, de) := cc_actual k (#(dap - dcds)) (#1) (Ksw_Exp ksw) s in (cc, pr, ca, de, c0a)))
+            by (unfold cc_actual, cc_outside, cc_growing, death_check; phase);
+          rewrite H2; clear H2 end.
+        destruct (cc_actual k (#(dap - dcds)) (#1) (Ksw_Exp ksw) s) as [[[[cc cc0_adj] ccx_act] prot] dead].
+        cbv beta iota.
+        (* senescence due to water stress *)
+        match goal with |- match ?p3 with Some _ => _ | None => _ end = _ =>
+          assert (H3 : p3 = Some (let '(cc', c0a', ca', de', pm, ces, tes, cw) :=
+                                    cc_senescence k s (#(dap - dcds)) (#1) (Ksw_Sen ksw) Dr taw et0 cc cc0_adj ccx_act dead in
+                                  (tes, pm, ces, ca', c0a', de', cc', cw))) end.
+        { unfold cc_senescence, cc_stress_branch, cc_rewater_branch, cc_sen, death_check, ws_of. cbv beta zeta.
+          cc_rw. unfold ksw_tuple, update_CCx_CDC. cbn [andb]. cbv beta iota zeta. abstract_ccsen.
+          Timeout 150 split_all.
+          Timeout 120 all: (timeout 10 reflexivity). }
+        rewrite H3; clear H3.
+        destruct (cc_senescence k s (#(dap - dcds)) (#1) (Ksw_Sen ksw) Dr taw et0 cc cc0_adj ccx_act dead)
+          as [[[[[[[cc' cc0_adj'] ccx_act'] dead'] premat] ces] tes] ccx_w].
+        cbv beta iota.
+        (* potential not below actual, micro-advective adjustment *)
+        Timeout 60 (unfold cc_ns_raise, cc_adj_of; phase).
+      - (* potential canopy *)
+        Timeout 60 match goal with |- match ?p1 with Some _ => _ | None => _ end = _ =>
+          assert (H1 : p1 = Some (let '(a, b, c) := cc_potential k (gdd_cum - dgdd) gdd (s_cc_ns s) (s_ccx_act_ns s) (s_ccx_w_ns s) in (a, b, c)))
+            by (unfold cc_potential, cc_outside; phase);
+          rewrite H1; clear H1 end.
+        destruct (cc_potential k (gdd_cum - dgdd) gdd (s_cc_ns s) (s_ccx_act_ns s) (s_ccx_w_ns s)) as [[cc_ns ccx_act_ns] ccx_w_ns].
+        cbv beta iota.
+        (* actual canopy *)
+        Timeout 120 match goal with |- match ?p2 with Some _ => _ | None => _ end = _ =>
+          assert (H2 : p2 = Some (let '(cc, c0a, ca, pr, de) := cc_actual k (gdd_cum - dgdd) gdd (Ksw_Exp ksw) s in (cc, pr, ca, de, c0a)))
+            by (unfold cc_actual, cc_outside, cc_growing, death_check; phase);
+          rewrite H2; clear H2 end.
+        destruct (cc_actual k (gdd_cum - dgdd) gdd (Ksw_Exp ksw) s) as [[[[cc cc0_adj] ccx_act] prot] dead].
+        cbv beta iota.
+        (* senescence due to water stress *)
+        match goal with |- match ?p3 with Some _ => _ | None => _ end = _ =>
+          assert (H3 : p3 = Some (let '(cc', c0a', ca', de', pm, ces, tes, cw) :=
+                                    cc_senescence k s (gdd_cum - dgdd) gdd (Ksw_Sen ksw) Dr taw et0 cc cc0_adj ccx_act dead in
+                                  (tes, pm, ces, ca', c0a', de', cc', cw))) end.
+        { unfold cc_senescence, cc_stress_branch, cc_rewater_branch, cc_sen, death_check, ws_of. cbv beta zeta.
+          cc_rw. unfold ksw_tuple, update_CCx_CDC. cbn [andb]. cbv beta iota zeta. abstract_ccsen.
+          Timeout 150 split_all.
+          Timeout 120 all: (timeout 10 reflexivity). }
+        rewrite H3; clear H3.
+        destruct (cc_senescence k s (gdd_cum - dgdd) gdd (Ksw_Sen ksw) Dr taw et0 cc cc0_adj ccx_act dead)
+          as [[[[[[[cc' cc0_adj'] ccx_act'] dead'] premat] ces] tes] ccx_w].
+        cbv beta iota.
+        (* potential not below actual, micro-advective adjustment *)
+        Timeout 60 (unfold cc_ns_raise, cc_adj_of; phase).
     Qed.
   End Body.
 End CC.
